@@ -61,6 +61,8 @@ def parseOp (op : String) : Option (Op String String String) :=
   | ["addm", rs] => (parseIds rs).map .addMany
   | ["rm", r] => (parseId r).map .remove
   | ["rmm", rs] => (parseIds rs).map .removeMany
+  -- `remove_resource_id` with a matcher equal to every listed id: same effect as the bulk removal
+  | ["rmp", rs] => (parseIds rs).map .removeMany
   | ["loc", ls] => some (.setLocales (parseList ls))
   | ["chg"] => some .onChange
   | ["async"] => some .setAsync
